@@ -18,6 +18,22 @@ OPEN_EXT = ("builtins.open", "aiofiles.open", "io.open", "os.open", "os.makedirs
             "tempfile.NamedTemporaryFile", "tempfile.mkstemp", "shutil.copy", "shutil.move")
 
 
+def is_unavailable_value(dev_cls, e):
+    """`False` - or `None` when the public `available` property converts the flag with bool(), so that users still see False."""
+    e = unawait(e)
+    if not isinstance(e, ast.Constant):
+        return False
+    if e.value is False:
+        return True
+    if e.value is None:
+        m = dev_cls.methods.get("available")
+        if m is not None and m.is_property:
+            body = [s for s in m.node.body if not (isinstance(s, ast.Expr) and isinstance(s.value, ast.Constant))]
+            v = body[0].value if len(body) == 1 and isinstance(body[0], ast.Return) else None
+            return isinstance(v, ast.Call) and isinstance(v.func, ast.Name) and v.func.id == "bool" and len(v.args) == 1
+    return False
+
+
 def _avail_exprs(R_, dev_cls, self_name):
     """Expressions that denote the availability flag inside a method: self._available and properties returning it."""
     out = []
@@ -63,14 +79,14 @@ def check(ctx, R):
                 R.fail("WMC-avail", "%s.%s" % (dev.qualname, name), "%s no longer maintains the availability flag" % name, dev.mod.relpath)
         # __init__: constant False
         for f, st in writers.get("__init__", []):
-            good = isinstance(st, ast.Assign) and isinstance(st.value, ast.Constant) and st.value.value is False
+            good = isinstance(st, ast.Assign) and is_unavailable_value(dev, st.value)
             R.check(good, "AVAIL-init", "%s|%s" % (f.qualname, norm_stmt(st)), "a new device starts unavailable", "a new device does not start unavailable", f.loc(st))
         # close: flag = False dominates the manager close (and everything that reaches I/O)
         f = roles.dev["close"]
         g = ctx.cfg(f)
         falses = [n for n in g.nodes if n.kind == "stmt" and isinstance(n.ast, ast.Assign) and any(varkey(t) == f.params[0] + "." + flag for t in n.ast.targets)
-                  and isinstance(n.ast.value, ast.Constant) and n.ast.value.value is False]
-        others = [st for (_f, st) in writers.get("close", []) if not (isinstance(st, ast.Assign) and isinstance(st.value, ast.Constant) and st.value.value is False)]
+                  and is_unavailable_value(dev, n.ast.value)]
+        others = [st for (_f, st) in writers.get("close", []) if not (isinstance(st, ast.Assign) and is_unavailable_value(dev, st.value))]
         for st in others:
             R.fail("AVAIL-close", "%s|%s" % (f.qualname, norm_stmt(st)), "close() writes something other than False to the availability flag", f.loc(st))
         ionodes = _io_nodes(ctx, f, rio)
@@ -83,7 +99,7 @@ def check(ctx, R):
         df = ctx.df(f)
         selfn = f.params[0]
         falses = [n for n in g.nodes if n.kind == "stmt" and isinstance(n.ast, ast.Assign) and any(varkey(t) == selfn + "." + flag for t in n.ast.targets)
-                  and isinstance(n.ast.value, ast.Constant) and n.ast.value.value is False]
+                  and is_unavailable_value(dev, n.ast.value)]
         mgr_nodes = [n for n in g.nodes if any(roles.io_connect in (ctx.cg.site(c).callees if ctx.cg.site(c) else []) for c in node_calls(n))]
         R.check(len(mgr_nodes) == 1, "AVAIL-connect", f.qualname + "|manager-call", "connect() delegates to the I/O manager exactly once",
                 "connect() does not call the I/O manager's connect exactly once (%d call sites)" % len(mgr_nodes), f.loc())
